@@ -17,7 +17,7 @@ import (
 func init() {
 	register(&Prop{ID: "C15", Run: runC15, MinNontrivial: 500,
 		Rule:        "cases = every builder (AuthnRequest document/string/NoSig, LogoutRequest, LogoutResponse, signed and unsigned) over configuration and argument strings from the value classes, all boolean/optional combinations, 0-4 authentication contexts, clocks in fixed zones -12h..+14h with sub-second parts; oracle: serialise, re-parse with etree, compare the namespace-resolved tree (element names, exact attribute sets and values, child order, text) with the tree expected from the configuration; ID checked by pattern; non-trivial = a document was produced; distinct by parameter tuple",
-		Assumptions: []string{"the recipient parser is Go's encoding/xml via etree (no attribute-value normalisation of TAB/LF)"}})
+		Assumptions: []string{"the recipient is modelled as a conforming XML processor: attribute-value normalisation (literal TAB/LF/CR -> space) is applied to the serialised text before Go's decoder, and a literal \"]]>\" inside attribute values (legal XML that Go refuses) is tolerated"}})
 }
 
 // shape renders an element as a namespace-resolved, order-preserving string.
@@ -229,7 +229,7 @@ func runC15(c *mon.Ctx) {
 		cs.Input([]byte(xml))
 		cs.Nontrivial(cs.Description())
 		doc := etree.NewDocument()
-		if err := doc.ReadFromString(xml); err != nil {
+		if err := doc.ReadFromString(sim.ConformingView(xml)); err != nil {
 			cs.Outcome("not-well-formed")
 			cs.Violation("not-well-formed", "output is not well-formed XML: %v", err)
 			continue
@@ -239,13 +239,6 @@ func runC15(c *mon.Ctx) {
 		expectedOutbound(sp, kind, args, now, signed).shape(&want, false)
 		if got.String() != want.String() {
 			key := "structure-or-value-mismatch"
-			if o.AttrCR {
-				var w2 strings.Builder
-				expectedOutbound(sp, kind, args, now, signed).shape(&w2, true)
-				if w2.String() == got.String() {
-					key = "attr-cr-outbound" // finding K3
-				}
-			}
 			cs.Outcome("mismatch")
 			cs.Violation(key, "document differs from configuration:\n want %s\n got  %s", trunc(want.String(), 1500), trunc(got.String(), 1500))
 			continue
